@@ -5,38 +5,74 @@ where E's signature is expected (CallableValue(sig(E)).can_assign(KnownValue(G))
 end-to-end, and the method-override route). Whenever it accepts, every concrete call shape that binds to E is executed
 against G under CPython; a TypeError there refutes the property. Typed variant: accepted pairs are judged for parameter
 contravariance / return covariance with the membership oracle over the universe U.
+
+Typed signatures over all parameter kinds (typed-sig): both functions return locals(); each call shape E binds is run on
+both with one marker object per argument, which tells for every argument the parameter of E that takes it and the
+parameter of G that receives it (CPython's own binding); the type E declares for the former must be inside the type G
+declares for the latter (membership oracle), and the counterexample value is passed for real and looked at where G got it.
+
+Protocol route: P is a Protocol whose method m has signature E (declared in P, inherited from another Protocol, or
+inherited from one of the non-protocol ABCs typing permits as protocol bases), C an unrelated class whose m has signature
+G; TypedValue(P).can_assign(TypedValue(C)) and `def use(p: P)` / `use(C())` decide; accepted => every call shape P's m
+binds must bind to C().m.
+
+Method kinds: the override route also with @classmethod and @staticmethod methods on both sides.
 """
 from __future__ import annotations
 
+import inspect
 import itertools
+import re
+import sys
+import types
 
 from vp import harness, ty, universe
 from vp.props.c05 import py_class, sig_from_json, sig_to_json
-from vp.sigs import KO, PK, PO, VA, VK, Call, Sig, enumerate_sigs
+from vp.sigs import KO, PK, PO, VA, VK, Call, Param, Sig, enumerate_sigs
 
 ID = "C07"
 LEVEL = "exploration"
 RULE = (
     "case = ordered pair (expected signature E, actual signature G); quick: all pairs of the 149 signatures with <=3 "
     "parameters (all kinds/default patterns), thorough: plus a sample of pairs with 4 parameters; each accepted pair is "
-    "executed on every call shape with <=3 positionals and <=3 keywords drawn from both signatures' names that binds "
-    "to E; typed variant: 2-parameter signatures with annotations from an 8-type vocabulary; override variant: the same "
-    "pairs as methods of Base/Derived with incompatible_override enabled. Non-trivial = accepted pair with E != G and "
-    "at least one call shape that E binds; distinct by (shape(E), shape(G), route)."
+    "executed on every call shape with <=3 positionals and <=3 keywords drawn from both signatures' names plus one foreign "
+    "keyword (only **kwargs can take it) that binds to E; typed variant: 2-parameter signatures with annotations from a "
+    "10-type vocabulary; typed-sig variant: every untyped-accepted pair of the shard plus a sample of the others, each "
+    "with several annotation assignments over ALL parameters incl. *args/**kw element types and the return type (E random; "
+    "G = same by name | same with one parameter widened to object | related/random), defaults are members of the declared "
+    "type, judged per argument as CPython binds it (which E parameter supplies it, which G parameter receives it); "
+    "override variant: the same pairs as methods of Base/Derived with incompatible_override enabled, direct and "
+    "far-ancestor shapes, and for a share of them as @classmethod and @staticmethod pairs; protocol variant: P(Protocol) "
+    "with method m of signature E vs. an unrelated class with m of signature G, m in {plain names, __len__, __call__, "
+    "__enter__}, P declaring m itself or inheriting it from another Protocol (sampled pairs, half of them untyped-accepted), "
+    "and P inheriting its member from each of the 13 non-protocol ABCs typing permits as protocol base (Sized, Iterable, "
+    "Iterator, Hashable, Container, Collection, Reversible, Callable, Awaitable, AsyncIterable, AsyncIterator, "
+    "AbstractContextManager, AbstractAsyncContextManager; members as typing.get_protocol_members reports them; directly or "
+    "through an intermediate Protocol) x every member x all 149 signatures G x implementing class plain / with __slots__ / "
+    "with __slots__ and __class_getitem__ (quick: a sample of that product, thorough: all of it), decided through the "
+    "TypedValue API and, for a sample, end to end through a parameter annotated with P. Non-trivial = accepted pair with "
+    "E != G and at least one call shape that E binds; distinct by (shape(E), shape(G), route) (typed-sig: plus annotations)."
 )
 ASSUMPTIONS = [
     "CPython binding (calling both functions, bodies are `pass`) is the oracle for call shapes",
-    "vp.ty.member over the universe U is the oracle for the typed variant",
+    "vp.ty.member over the universe U is the oracle for the typed variants (typed-sig: the counterexample object is really passed and found in the receiving parameter of the actual function)",
+    "typing_extensions.get_protocol_members is the reference for which methods a Protocol with an ABC base has; the ABC's own function is the expected signature",
     "only acceptance is judged (soundness); rejecting a runtime-compatible pair is incompleteness and not claimed",
 ]
 FLOORS = {
-    "quick": {"distinct_nontrivial": 2000, "pairs": 20000, "accepted_pairs": 2000, "call_shapes_executed": 5000, "typed_pairs": 2000, "override_pairs": 300},
+    "quick": {"distinct_nontrivial": 4000, "pairs": 20000, "accepted_pairs": 2000, "call_shapes_executed": 7000, "typed_pairs": 2000,
+              "override_pairs": 300, "override_kind_pairs": 190, "typed_sig_pairs": 5000, "typed_sig_accepted": 2000,
+              "typed_sig_args_judged": 12000, "protocol_pairs": 1000, "protocol_accepted_pairs": 180, "protocol_abc_accepted": 10,
+              "protocol_e2e_pairs": 90},
     "thorough": {"distinct_nontrivial": 8000, "pairs": 100000, "call_shapes_executed": 20000},
 }
 
 
+FOREIGN = "zz"  # a keyword that is no parameter's name: only a **kwargs parameter can take it
+
+
 def call_shapes_for(names, max_pos=3, max_kw=3):
-    pool = list(names)
+    pool = [*names, FOREIGN]
     for npos in range(0, max_pos + 1):
         for r in range(0, min(max_kw, len(pool)) + 1):
             for kws in itertools.combinations(pool, r):
@@ -66,13 +102,28 @@ def binds(f, c: Call) -> tuple:
     args = list(range(1, c.npos + 1))
     kwargs = {k: 20 + i for i, k in enumerate(c.kws)}
     try:
-        f(*args, **kwargs)
-        return True, None
+        r = f(*args, **kwargs)
     except TypeError as e:
         return False, str(e)
+    except Exception:  # noqa: BLE001 - the body of a library ABC method ran (e.g. StopIteration): the call did bind
+        return True, None
+    if inspect.iscoroutine(r):
+        r.close()
+    return True, None
 
 
-def judge_pair(ctx, E: Sig, G: Sig, fe, fg, route: str, witness_extra=None) -> None:
+def err_class(err: str) -> str:
+    """Mechanism class of a CPython binding error; unknown messages keep their (name/number-abstracted) text."""
+    c = py_class(err)
+    if c != "other":
+        return c
+    m = re.sub(r"^[\w.<>]+\(\) ", "", err)
+    m = re.sub(r"'[^']*'", "'N'", m)
+    m = re.sub(r"\d+", "#", m)
+    return "other:" + m[:60]
+
+
+def judge_pair(ctx, E: Sig, G: Sig, fe, fg, route: str, witness_extra=None, key_of=None) -> None:
     names = sorted(set(E.names()) | set(G.names()))
     nbound = 0
     for c in call_shapes_for(names):
@@ -83,7 +134,7 @@ def judge_pair(ctx, E: Sig, G: Sig, fe, fg, route: str, witness_extra=None) -> N
         ctx.count("call_shapes_executed")
         ok_g, err = binds(fg, c)
         if not ok_g:
-            key = f"{route}|accepted-but-actual-raises|py:{py_class(err)}"
+            key = f"{route}|accepted-but-actual-raises|" + (key_of(E, G, err) if key_of else f"py:{err_class(err)}")
             what = (f"pyanalyze accepts `{G.render('g')}` where `{E.render('e')}` is expected ({route}), but the call "
                     f"{c.render('f')} binds to e and raises on g: {err}")
             w = {"route": route, "E": sig_to_json(E), "G": sig_to_json(G)}
@@ -93,6 +144,17 @@ def judge_pair(ctx, E: Sig, G: Sig, fe, fg, route: str, witness_extra=None) -> N
             break
     if nbound and E != G:
         ctx.nontrivial((E.shape(), G.shape(), route))
+
+
+_CHECKER = []
+
+
+def shared_checker():
+    """One Checker per worker process (constructing one costs ~0.12 s)."""
+    if not _CHECKER:
+        # the very Checker the end-to-end runs of this worker use (harness caches it per configuration)
+        _CHECKER.append(harness.constructor_kwargs()["checker"])
+    return _CHECKER[0]
 
 
 def api_accepts(checker, fe, fg) -> bool:
@@ -107,9 +169,7 @@ def api_accepts(checker, fe, fg) -> bool:
 
 def run_api_pairs(ctx, sigs, pairs) -> list:
     """pairs: list of (i, j). Returns accepted pairs for the e2e sample."""
-    from pyanalyze.checker import Checker
-
-    checker = Checker()
+    checker = shared_checker()
     ns = build_module(sigs)
     accepted = []
     for i, j in pairs:
@@ -165,12 +225,42 @@ def run_e2e_literal(ctx, sigs, pairs) -> None:
         harness.forget_module(res.module)
 
 
-def run_override(ctx, sigs, pairs) -> None:
-    """Two shapes per pair (expected E, actual G):
+def runtime_compatible(E: Sig, G: Sig) -> bool:
+    ns = {}
+    exec(E.render("e") + "\n" + G.render("g") + "\n", ns)
+    for c in call_shapes_for(sorted(set(E.names()) | set(G.names()))):
+        if binds(ns["e"], c)[0] and not binds(ns["g"], c)[0]:
+            return False
+    return True
+
+
+def first_parameter_locus(E: Sig, G: Sig, err: str) -> str:
+    """Where an accepted-but-incompatible pair goes wrong. A parameter of the actual filled twice is the mechanism every
+    route shows (Signature.can_assign does not model it) and keeps its own class; otherwise 'first-parameter' if one of the signatures has no leading
+    positional parameter or the two are call-compatible once the leading positional parameter of each is removed (the
+    slot a receiver would take); else 'general'."""
+    if err_class(err) == "multiple-values":
+        return "py:multiple-values"
+    e_has = bool(E.params) and E.params[0].kind in (PO, PK)
+    g_has = bool(G.params) and G.params[0].kind in (PO, PK)
+    if not e_has or not g_has or runtime_compatible(Sig(E.params[1:]), Sig(G.params[1:])):
+        return "first-parameter"
+    return "general"
+
+
+METHOD_KINDS = {"classmethod": ("BC", "DC", "cls"), "staticmethod": ("BS", "DS", None)}
+
+
+def run_override(ctx, sigs, pairs, n_kinds: int = 0) -> None:
+    """Shapes per pair (expected E, actual G):
       direct:  class B: def m(self, <E>)        class D(B): def m(self, <G>)
       far:     class N: def m(self, <G>)        class F: def m(self, <E>)        class D(N, F): def m(self, <G>)
-    (in the second one the NEAREST ancestor defining m is trivially compatible, the incompatible one is farther away).
-    D.m is accepted iff no incompatible_override is reported on it; then every call shape E binds must bind to D().m."""
+    (in the second one the NEAREST ancestor defining m is trivially compatible, the incompatible one is farther away);
+    for the first n_kinds pairs also the other method kinds:
+      classmethod:   class BC: @classmethod def m(cls, <E>)    class DC(BC): @classmethod def m(cls, <G>)
+      staticmethod:  class BS: @staticmethod def m(<E>)        class DS(BS): @staticmethod def m(<G>)
+    D.m is accepted iff no incompatible_override is reported on it; then every call shape E binds must bind to D().m
+    (resp. DC.m / DS.m)."""
     if not pairs:
         return
     lines = []
@@ -182,14 +272,19 @@ def run_override(ctx, sigs, pairs) -> None:
         lines.append(f"    def m(self{se}): pass")
         lines.append(f"class D{n}(B{n}):")
         lines.append(f"    def m(self{sg}): pass")
-        line_of[(n, "direct")] = len(lines)
+        line_of[(n, "direct")] = (len(lines),)
         lines.append(f"class N{n}:")
         lines.append(f"    def m(self{sg}): pass")
         lines.append(f"class F{n}:")
         lines.append(f"    def m(self{se}): pass")
         lines.append(f"class X{n}(N{n}, F{n}):")
         lines.append(f"    def m(self{sg}): pass")
-        line_of[(n, "far")] = len(lines)
+        line_of[(n, "far")] = (len(lines),)
+        if n < n_kinds:
+            for kind, (bn, dn, first) in METHOD_KINDS.items():
+                lines += [f"class {bn}{n}:", f"    @{kind}", f"    def m({first + se if first else pe}): pass",
+                          f"class {dn}{n}({bn}{n}):", f"    @{kind}", f"    def m({first + sg if first else pg}): pass"]
+                line_of[(n, kind)] = (len(lines) - 1, len(lines))
     source = "\n".join(lines) + "\n"
     res = harness.run(source, keep_module=True, overrides={"incompatible_override": True})
     try:
@@ -199,11 +294,21 @@ def run_override(ctx, sigs, pairs) -> None:
         by_line = res.by_line()
         ns = res.module.__dict__
         for n, (i, j) in enumerate(pairs):
-            for shape, base_name, derived_name in (("direct", f"B{n}", f"D{n}"), ("far", f"F{n}", f"X{n}")):
-                ds = [d for d in by_line.get(line_of[(n, shape)], []) if d.code == "incompatible_override"]
+            shapes = [("direct", f"B{n}", f"D{n}"), ("far", f"F{n}", f"X{n}")]
+            if n < n_kinds:
+                shapes += [(kind, f"{bn}{n}", f"{dn}{n}") for kind, (bn, dn, _) in METHOD_KINDS.items()]
+            for shape, base_name, derived_name in shapes:
+                ds = [d for ln in line_of[(n, shape)] for d in by_line.get(ln, []) if d.code == "incompatible_override"]
                 ctx.count("evaluations")
-                ctx.count("override_pairs")
+                ctx.count("override_pairs" if shape in ("direct", "far") else "override_kind_pairs")
                 if ds:
+                    continue
+                if shape in METHOD_KINDS:
+                    # looked up on the class and on an instance: both must take every call shape E takes
+                    ctx.count("override_kind_accepted")
+                    ctx.histo("override_kind_verdicts", f"{shape}:accepted")
+                    judge_pair(ctx, sigs[i], sigs[j], getattr(ns[base_name], "m"), getattr(ns[derived_name], "m"),
+                               f"override-{shape}", key_of=first_parameter_locus)
                     continue
                 ctx.count("override_accepted")
                 base, derived = ns[base_name](), ns[derived_name]()
@@ -220,10 +325,9 @@ TYPED_VOCAB = ["int", "bool", "float", "str", "object", "Optional[int]", "A", "B
 
 
 def typed_pairs(ctx, n: int) -> None:
-    from pyanalyze.checker import Checker
     from vp.props.c03 import _find_ty
 
-    checker = Checker()
+    checker = shared_checker()
     rng = ctx.rng
     tys = {t: _find_ty(t) for t in TYPED_VOCAB}
     src = ["from vp.prelude import *"]
@@ -266,6 +370,429 @@ def typed_pairs(ctx, n: int) -> None:
                           {"route": "typed", "e": [e1, e2, er], "g": [g1, g2, gr]})
 
 
+# ---------------------------------------------------------------------------
+# typed signatures over ALL parameter kinds: every argument as CPython binds it must lie inside the annotation of the
+# parameter of the actual callable that receives it
+
+TS_DEFAULT = {"int": "0", "bool": "False", "float": "0.0", "str": "''", "object": "None", "Optional[int]": "None",
+              "A": "A()", "B": "B()", "list[int]": "[]", "Literal[1]": "1"}
+_TS_TYS: dict = {}
+_TS_SUBSET: dict = {}
+
+
+def ts_ty(t: str):
+    if t not in _TS_TYS:
+        from vp.props.c03 import _find_ty
+
+        _TS_TYS[t] = _find_ty(t)
+    return _TS_TYS[t]
+
+
+def ts_subset(x: str, y: str):
+    """First member of U that is an x and not a y (None if members(x) is a subset of members(y) over U)."""
+    k = (x, y)
+    if k not in _TS_SUBSET:
+        _TS_SUBSET[k] = None if x == y else universe.subset_over_u(ts_ty(x), ts_ty(y))
+    return _TS_SUBSET[k]
+
+
+class _Marker(tuple):
+    """Identity-carrying stand-in for one argument of a call shape."""
+
+
+def render_typed(name: str, s: Sig, ann: dict) -> str:
+    dflt = {p.name: TS_DEFAULT[ann[p.name]] for p in s.params if p.default}
+    return f"def {name}({s.render_params(annotations=ann, defaults=dflt)}) -> {ann['return']}: return locals()"
+
+
+def param_label(p: Param) -> str:
+    return {VA: "*", VK: "**"}.get(p.kind, p.kind)
+
+
+def shape_markers(c: Call):
+    return [_Marker(("p", i)) for i in range(c.npos)], {k: _Marker(("k", k)) for k in c.kws}
+
+
+def bound_params(f, s: Sig, c: Call) -> dict:
+    """Call f (body: `return locals()`) with one marker per argument of the shape; returns marker -> (parameter that
+    received it, locator inside that parameter: None | index in *args | key in **kwargs). TypeError if f does not bind."""
+    pos, kws = shape_markers(c)
+    loc = f(*pos, **kws)
+    out = {}
+    for p in s.params:
+        v = loc[p.name]
+        if p.kind == VA:
+            for n, x in enumerate(v):
+                out[x] = (p, n)
+        elif p.kind == VK:
+            for k, x in v.items():
+                out[x] = (p, k)
+        elif isinstance(v, _Marker):
+            out[v] = (p, None)
+    return out
+
+
+def fetch_bound(loc: dict, p: Param, locator):
+    v = loc[p.name]
+    return v if locator is None else v[locator]
+
+
+def judge_typed_pair(ctx, E: Sig, G: Sig, ea: dict, ga: dict, fe, fg, route: str = "typed-sig") -> None:
+    """E/G rendered by render_typed (bodies return locals()); the pair was accepted by pyanalyze."""
+    w = {"route": route, "E": sig_to_json(E), "G": sig_to_json(G), "ea": ea, "ga": ga}
+    names = sorted(set(E.names()) | set(G.names()))
+    nbound = 0
+    for c in call_shapes_for(names):
+        try:
+            me = bound_params(fe, E, c)
+        except TypeError:
+            continue
+        nbound += 1
+        ctx.count("typed_sig_shapes_executed")
+        try:
+            mg = bound_params(fg, G, c)
+        except TypeError as e:
+            # same mechanism (and key) as the untyped api route: the call does not even bind
+            ctx.violation(f"api|accepted-but-actual-raises|py:{err_class(str(e))}",
+                          f"pyanalyze accepts `{render_typed('g', G, ga)}` where `{render_typed('e', E, ea)}` is expected, but "
+                          f"the call {c.render('f')} binds to e and raises on g: {e}", w)
+            return
+        for m, (pe, _) in me.items():
+            pg, locator = mg[m]
+            te, tg = ea[pe.name], ga[pg.name]
+            ctx.count("typed_sig_args_judged")
+            cex = ts_subset(te, tg)
+            if cex is None:
+                continue
+            # run the offending call for real: every argument is a member of the type e declares for it
+            pos, kws = shape_markers(c)
+            val = {}
+            for m2, (pe2, _) in me.items():
+                val[m2] = cex.obj if m2 is m else universe.members_of(ts_ty(ea[pe2.name]))[0].obj
+            got = fetch_bound(fg(*[val[x] for x in pos], **{k: val[x] for k, x in kws.items()}), pg, locator)
+            if got is not cex.obj or ty.member(got, ts_ty(tg)) is not False:
+                continue
+            how = "by-keyword" if m[0] == "k" else "by-position"
+            ctx.histo("typed_sig_violating_types", f"{te}->{tg}")
+            ctx.violation(
+                f"{route}|bound-arg-outside-annotation|expected:{param_label(pe)}|actual:{param_label(pg)}|{how}",
+                f"pyanalyze accepts `{render_typed('g', G, ga)}` where `{render_typed('e', E, ea)}` is expected, but the "
+                f"call {c.render('f')} with {'keyword ' + m[1] if m[0] == 'k' else 'positional #%d' % (m[1] + 1)} = {cex.src} "
+                f"is well typed for e ({pe.name}: {te}) and g receives it in parameter {pg.name}: {tg}", w)
+            return
+    cex = ts_subset(ga["return"], ea["return"])
+    if cex is not None and nbound:
+        ctx.violation(f"{route}|return-not-covariant",
+                      f"pyanalyze accepts `{render_typed('g', G, ga)}` where `{render_typed('e', E, ea)}` is expected, but g may "
+                      f"return {cex.src}, a {ga['return']} that is not a {ea['return']}", w)
+        return
+    if nbound:
+        ctx.nontrivial((route, E.shape(), G.shape(), tuple(sorted(ea.items())), tuple(sorted(ga.items()))))
+
+
+def gen_expected_annotations(rng, E: Sig) -> dict:
+    ea = {p.name: rng.choice(TYPED_VOCAB) for p in E.params}
+    ea["return"] = rng.choice(TYPED_VOCAB)
+    return ea
+
+
+def gen_actual_annotations(rng, ea: dict, G: Sig):
+    """Annotations (incl. *args/**kw element types and the return type) for the actual signature. Three modes:
+    same-as-E by parameter name; same with one parameter widened to object; related/random."""
+    mode = rng.choice(("same", "same", "widen-one", "related", "related"))
+    ga = {}
+    for p in G.params:
+        if mode == "related":
+            ga[p.name] = rng.choice([ea.get(p.name, "object"), "object", "float", rng.choice(TYPED_VOCAB)])
+        else:
+            ga[p.name] = ea.get(p.name) or rng.choice(TYPED_VOCAB)
+    if mode == "widen-one" and G.params:
+        ga[rng.choice(G.params).name] = "object"
+    ga["return"] = ea["return"] if mode != "related" else rng.choice([ea["return"], "bool", "B", rng.choice(TYPED_VOCAB)])
+    return mode, ga
+
+
+def run_typed_sigs(ctx, sigs, cases) -> None:
+    """cases: list of (i, j, ea, ga, mode); cases with the same (i, ea) share one expected function."""
+    if not cases:
+        return
+    checker = shared_checker()
+    src = ["from vp.prelude import *"]
+    ename = {}
+    for k, (i, j, ea, ga, _) in enumerate(cases):
+        ek = (i, tuple(sorted(ea.items())))
+        if ek not in ename:
+            ename[ek] = f"e{k}"
+            src.append(render_typed(f"e{k}", sigs[i], ea))
+        src.append(render_typed(f"g{k}", sigs[j], ga))
+    ns = {}
+    exec(compile("\n".join(src) + "\n", "<c07 typed-sig>", "exec", dont_inherit=True), ns)
+    for k, (i, j, ea, ga, mode) in enumerate(cases):
+        E, G = sigs[i], sigs[j]
+        fe, fg = ns[ename[(i, tuple(sorted(ea.items())))]], ns[f"g{k}"]
+        ctx.count("evaluations")
+        ctx.count("typed_sig_pairs")
+        try:
+            acc = api_accepts(checker, fe, fg)
+        except Exception as e:  # noqa: BLE001
+            ctx.violation(f"typed-sig|raises|{type(e).__name__}", f"can_assign raised {e!r}",
+                          {"route": "typed-sig", "E": sig_to_json(E), "G": sig_to_json(G), "ea": ea, "ga": ga})
+            continue
+        ctx.histo("typed_sig_verdicts", f"{mode}:{'accepted' if acc else 'rejected'}")
+        if acc:
+            ctx.count("typed_sig_accepted")
+            ctx.histo("typed_sig_accepted_features", f"{sig_features(E)} <- {sig_features(G)}")
+            judge_typed_pair(ctx, E, G, ea, ga, fe, fg)
+
+
+def typed_sig_cases(ctx, sigs, pairs, per_expected: int) -> list:
+    rng = ctx.rng
+    by_i: dict = {}
+    for i, j in pairs:
+        by_i.setdefault(i, []).append(j)
+    cases = []
+    for i in sorted(by_i):
+        for _ in range(per_expected):
+            ea = gen_expected_annotations(rng, sigs[i])
+            for j in by_i[i]:
+                mode, ga = gen_actual_annotations(rng, ea, sigs[j])
+                cases.append((i, j, ea, ga, mode))
+    return cases
+
+
+# ---------------------------------------------------------------------------
+# protocol methods: `def use(p: P)` / TypedValue(P).can_assign(TypedValue(C)) where P is a Protocol with method m of
+# signature E and C an unrelated class with method m of signature G
+
+# non-protocol ABCs that typing permits as bases of a Protocol class; their methods become members of the protocol
+PROTO_ABCS = {
+    "Sized": "collections.abc", "Iterable": "collections.abc", "Iterator": "collections.abc",
+    "Hashable": "collections.abc", "Container": "collections.abc", "Collection": "collections.abc",
+    "Reversible": "collections.abc", "Callable": "collections.abc", "Awaitable": "collections.abc",
+    "AsyncIterable": "collections.abc", "AsyncIterator": "collections.abc",
+    "AbstractContextManager": "contextlib", "AbstractAsyncContextManager": "contextlib",
+}
+PROTO_VARIANTS = ("direct", "inherited", "abc", "abc-inherited")
+PROTO_EQUIP = ("plain", "slots", "slots+cgi")  # what else the implementing class defines
+PROTO_METHOD_NAMES = ("m", "handle", "__len__", "__call__", "__enter__")
+_ABC_MEMBERS: dict = {}
+_PROTO_MODS: list = []
+
+
+def abc_members(abc_name: str) -> dict:
+    """Members typing itself reports for `class P(<abc>, Protocol)` -> Sig of that member (self dropped)."""
+    if abc_name not in _ABC_MEMBERS:
+        import importlib
+
+        from typing_extensions import Protocol, get_protocol_members
+
+        abc = getattr(importlib.import_module(PROTO_ABCS[abc_name]), abc_name)
+        P = type(Protocol)("P", (abc, Protocol), {})
+        out = {}
+        for name in sorted(get_protocol_members(P)):
+            out[name] = sig_of_callable(inspect.getattr_static(P, name), skip_first=True)
+        _ABC_MEMBERS[abc_name] = out
+    return _ABC_MEMBERS[abc_name]
+
+
+def abc_member_list() -> list:
+    return [(a, m) for a in PROTO_ABCS for m in abc_members(a)]
+
+
+def sig_of_callable(fn, skip_first: bool = False) -> Sig:
+    kinds = {inspect.Parameter.POSITIONAL_ONLY: PO, inspect.Parameter.POSITIONAL_OR_KEYWORD: PK,
+             inspect.Parameter.VAR_POSITIONAL: VA, inspect.Parameter.KEYWORD_ONLY: KO, inspect.Parameter.VAR_KEYWORD: VK}
+    ps = list(inspect.signature(fn).parameters.values())
+    if skip_first:
+        ps = ps[1:]
+    return Sig(tuple(Param(p.name, kinds[p.kind], p.default is not p.empty) for p in ps))
+
+
+def proto_case_lines(n: int, case: dict, E, G: Sig) -> list:
+    """Source of one case: protocol P{n}, implementing class C{n}, `def use{n}(p: P{n})`."""
+    variant, member = case["variant"], case["member"]
+    pg = G.render_params()
+    sg = ", " + pg if pg else ""
+    lines = []
+    impl_extra = []
+    if variant in ("direct", "inherited"):
+        pe = E.render_params()
+        se = ", " + pe if pe else ""
+        if variant == "direct":
+            lines += [f"class P{n}(Protocol):", f"    def {member}(self{se}): ..."]
+        else:
+            lines += [f"class Q{n}(Protocol):", f"    def {member}(self{se}): ...",
+                      f"class P{n}(Q{n}, Protocol):", "    def other(self): ..."]
+            impl_extra.append("    def other(self): pass")
+    else:
+        abc = case["abc"]
+        if variant == "abc":
+            lines += [f"class P{n}({abc}, Protocol):", "    def other(self): ..."]
+        else:
+            lines += [f"class Q{n}({abc}, Protocol):", "    def other(self): ...",
+                      f"class P{n}(Q{n}, Protocol):", "    def another(self): ..."]
+            impl_extra.append("    def another(self): pass")
+        impl_extra.append("    def other(self): pass")
+        for name, msig in abc_members(abc).items():
+            if name != member:
+                pm = msig.render_params()
+                impl_extra.append(f"    def {name}(self{', ' + pm if pm else ''}): pass")
+    lines.append(f"class C{n}:")
+    equip = case.get("equip", "plain")
+    if equip != "plain":
+        lines.append("    __slots__ = ()")
+    if equip == "slots+cgi":
+        lines.append("    __class_getitem__ = classmethod(GenericAlias)")
+    lines += impl_extra
+    lines.append(f"    def {member}(self{sg}): pass")
+    lines.append(f"def use{n}(p: P{n}) -> None: pass")
+    return lines
+
+
+PROTO_HEADER = [
+    "from typing_extensions import Protocol",
+    "from types import GenericAlias",
+    "from collections.abc import " + ", ".join(a for a, mod in PROTO_ABCS.items() if mod == "collections.abc"),
+    "from contextlib import " + ", ".join(a for a, mod in PROTO_ABCS.items() if mod == "contextlib"),
+]
+
+
+def proto_expected_sig(case: dict, sigs) -> Sig:
+    if case["variant"] in ("direct", "inherited"):
+        return sigs[case["i"]] if "i" in case else sig_from_json(case["E"])
+    return abc_members(case["abc"])[case["member"]]
+
+
+def proto_witness(case: dict, E: Sig, G: Sig, via: str) -> dict:
+    w = {k: v for k, v in case.items() if k not in ("i", "j")}
+    w.update({"route": "protocol", "via": via, "E": sig_to_json(E), "G": sig_to_json(G)})
+    return w
+
+
+def judge_proto(ctx, ns: dict, n: int, case: dict, E: Sig, G: Sig, via: str) -> None:
+    P, C = ns[f"P{n}"], ns[f"C{n}"]
+    member = case["member"]
+    fe = types.MethodType(inspect.getattr_static(P, member), object())
+    fg = getattr(C(), member)
+    # direct / inherited-from-a-Protocol share one route name; members coming from a non-protocol ABC have their own
+    route = ("protocol-abc" if case["variant"].startswith("abc") else "protocol") + ("" if via == "api" else "-param")
+    ctx.histo("protocol_accepted", f"{route}:{case.get('abc', '-')}:{member if member.startswith('__') else 'plain-name'}:{case.get('equip', 'plain')}")
+    judge_pair(ctx, E, G, fe, fg, route, witness_extra=proto_witness(case, E, G, via))
+
+
+def run_protocol_api(ctx, sigs, cases) -> list:
+    """cases: dicts {variant, member, i|E (direct/inherited), abc (abc variants), j|G, equip}. Returns the accepted ones."""
+    from pyanalyze.value import CanAssignError, TypedValue
+
+    if not cases:
+        return []
+    checker = shared_checker()
+    lines = list(PROTO_HEADER)
+    EG = []
+    for n, case in enumerate(cases):
+        E = proto_expected_sig(case, sigs)
+        G = sigs[case["j"]] if "j" in case else sig_from_json(case["G"])
+        EG.append((E, G))
+        lines += proto_case_lines(n, case, E, G)
+    # a real (registered) module: pyanalyze resolves classes by importing their __module__
+    mod = types.ModuleType(f"c07_proto_{ctx.shard}_{len(_PROTO_MODS)}")
+    _PROTO_MODS.append(mod.__name__)
+    sys.modules[mod.__name__] = mod
+    ns = mod.__dict__
+    exec(compile("\n".join(lines) + "\n", "<c07 protocols>", "exec", dont_inherit=True), ns)
+    accepted = []
+    try:
+        _judge_protocol_api_cases(ctx, cases, EG, ns, checker, accepted)
+    finally:
+        sys.modules.pop(mod.__name__, None)
+    return accepted
+
+
+def _judge_protocol_api_cases(ctx, cases, EG, ns, checker, accepted) -> None:
+    from pyanalyze.value import CanAssignError, TypedValue
+
+    for n, case in enumerate(cases):
+        E, G = EG[n]
+        ctx.count("evaluations")
+        ctx.count("protocol_pairs")
+        try:
+            res = TypedValue(ns[f"P{n}"]).can_assign(TypedValue(ns[f"C{n}"]), checker)
+        except Exception as e:  # noqa: BLE001
+            ctx.violation(f"protocol-{case['variant']}|raises|{type(e).__name__}", f"can_assign raised {e!r}", proto_witness(case, E, G, "api"))
+            continue
+        acc = not isinstance(res, CanAssignError)
+        ctx.histo("protocol_verdicts", f"{case['variant']}:{'accepted' if acc else 'rejected'}")
+        if acc:
+            ctx.count("protocol_accepted_pairs")
+            if case["variant"].startswith("abc"):
+                ctx.count("protocol_abc_accepted")
+            accepted.append(case)
+            judge_proto(ctx, ns, n, case, E, G, "api")
+
+
+def run_protocol_e2e(ctx, sigs, cases) -> None:
+    """The same cases end to end: `use{n}(C{n}())`; no incompatible_argument on that line means accepted."""
+    if not cases:
+        return
+    lines = list(PROTO_HEADER)
+    EG = []
+    for n, case in enumerate(cases):
+        E = proto_expected_sig(case, sigs)
+        G = sigs[case["j"]] if "j" in case else sig_from_json(case["G"])
+        EG.append((E, G))
+        lines += proto_case_lines(n, case, E, G)
+    lines.append("def caller():")
+    line_of = {}
+    for n in range(len(cases)):
+        lines.append(f"    use{n}(C{n}())")
+        line_of[n] = len(lines)
+    source = "\n".join(lines) + "\n"
+    res = harness.run(source, keep_module=True)
+    try:
+        if res.exception is not None:
+            ctx.violation("protocol-e2e|exception", f"check raised {res.exception!r}", {"route": "e2e-src", "source": source})
+            return
+        by_line = res.by_line()
+        ns = res.module.__dict__
+        for n, case in enumerate(cases):
+            ds = [d for d in by_line.get(line_of[n], []) if d.code in ("incompatible_argument", "incompatible_call")]
+            ctx.count("evaluations")
+            ctx.count("protocol_e2e_pairs")
+            if not ds:
+                ctx.count("protocol_e2e_accepted")
+                judge_proto(ctx, ns, n, case, EG[n][0], EG[n][1], "param")
+    finally:
+        harness.forget_module(res.module)
+
+
+def protocol_cases(ctx, sigs, pairs, accepted) -> list:
+    """Cases of this shard. direct/inherited: sampled (E, G) pairs (half from the untyped-accepted ones so that acceptance
+    is frequent), method name cycling through plain and special names. abc variants: a share of the full product
+    (permitted ABC, member) x all signatures G x equipment of the implementing class."""
+    rng = ctx.rng
+    cases = []
+    nd = ctx.pick(40, 500)
+    chosen = rng.sample(accepted, min(len(accepted), nd // 2)) + rng.sample(pairs, min(len(pairs), nd - nd // 2))
+    for k, (i, j) in enumerate(chosen):
+        cases.append({"variant": ("direct", "inherited")[k % 2], "member": PROTO_METHOD_NAMES[(k // 2) % len(PROTO_METHOD_NAMES)],
+                      "i": i, "j": j})
+    members = abc_member_list()
+    dims = (len(members), len(sigs), len(PROTO_EQUIP), 2)
+    total = dims[0] * dims[1] * dims[2] * dims[3]
+    idxs = range(ctx.shard, total, ctx.nshards)  # == the indices with ctx.mine(idx)
+    if ctx.quick:
+        idxs = sorted(rng.sample(idxs, min(len(idxs), 90)))
+    mine = []
+    for idx in idxs:
+        idx, v = divmod(idx, 2)
+        idx, e = divmod(idx, dims[2])
+        mi, j = divmod(idx, dims[1])
+        mine.append((*members[mi], j, PROTO_EQUIP[e], ("abc", "abc-inherited")[v]))
+    for a, m, j, eq, v in mine:
+        cases.append({"variant": v, "abc": a, "member": m, "j": j, "equip": eq})
+    return cases
+
+
 def shard(ctx) -> None:
     sigs = list(enumerate_sigs(3))
     n = len(sigs)
@@ -277,12 +804,28 @@ def shard(ctx) -> None:
         run_e2e_literal(ctx, sigs, sample[k : k + 150])
     osample = rng.sample(pairs, min(len(pairs), ctx.pick(120, 800)))
     for k in range(0, len(osample), 100):
-        run_override(ctx, sigs, osample[k : k + 100])
+        run_override(ctx, sigs, osample[k : k + 100], n_kinds=ctx.pick(12 if k == 0 else 0, 100))
     if ctx.tier == "thorough":
         big = list(enumerate_sigs(4))
         bpairs = [(rng.randrange(len(big)), rng.randrange(len(big))) for _ in range(6000)]
         run_api_pairs(ctx, big, bpairs)
     typed_pairs(ctx, ctx.pick(400, 4000))
+    # typed signatures over all parameter kinds: every untyped-accepted pair of this shard (typed acceptance can only be
+    # narrower) plus a sample of the others, each with several annotation assignments
+    acc_set = set(accepted)
+    others = [pr for pr in pairs if pr not in acc_set]
+    tcases = typed_sig_cases(ctx, sigs, accepted + rng.sample(others, min(len(others), ctx.pick(30, 400))), ctx.pick(3, 24))
+    for k in range(0, len(tcases), 400):
+        run_typed_sigs(ctx, sigs, tcases[k : k + 400])
+    pcases = protocol_cases(ctx, sigs, pairs, accepted)
+    pacc = []
+    for k in range(0, len(pcases), 300):
+        pacc += run_protocol_api(ctx, sigs, pcases[k : k + 300])
+    # end-to-end (parameter annotated with the protocol) for a sample: accepted ones first, they are the informative ones
+    rest = [c for c in pcases if c not in pacc]
+    esample = rng.sample(pacc, min(len(pacc), ctx.pick(8, 150))) + rng.sample(rest, min(len(rest), ctx.pick(4, 150)))
+    for k in range(0, len(esample), 100):
+        run_protocol_e2e(ctx, sigs, esample[k : k + 100])
     if len(ctx.samples) < 2 and accepted:
         i, j = accepted[len(accepted) // 2]
         ctx.sample({"expected": sigs[i].render("e"), "actual": sigs[j].render("g"), "accepted": True})
@@ -308,14 +851,30 @@ def replay(witness):
             if universe.subset_over_u(tys[gr], tys[er]) is not None:
                 return f"typed|return-not-covariant|expected:{er}|actual:{gr}", "still accepted"
         return None
+    if route == "protocol":
+        case = {k: v for k, v in witness.items() if k not in ("route", "via")}
+        if witness["via"] == "api":
+            run_protocol_api(ctx, [], [case])
+        else:
+            run_protocol_e2e(ctx, [], [case])
+        for key, lst in ctx.violations.items():
+            return key, lst[0]["what"]
+        return None
     E, G = sig_from_json(witness["E"]), sig_from_json(witness["G"])
     sigs = [E, G]
+    if route == "typed-sig":
+        run_typed_sigs(ctx, sigs, [(0, 1, witness["ea"], witness["ga"], "replay")])
+        for key, lst in ctx.violations.items():
+            return key, lst[0]["what"]
+        return None
     if route == "api":
         run_api_pairs(ctx, sigs, [(0, 1)])
     elif route == "literal-param":
         run_e2e_literal(ctx, sigs, [(0, 1)])
     elif route in ("override", "override-far-ancestor"):
         run_override(ctx, sigs, [(0, 1)])
+    elif route in ("override-classmethod", "override-staticmethod"):
+        run_override(ctx, sigs, [(0, 1)], n_kinds=1)
     for key, lst in ctx.violations.items():
         if key.startswith(route + "|"):
             return key, lst[0]["what"]
